@@ -38,7 +38,7 @@ def run(case):
                 except StopIteration as e:
                     return e.value
                 r.close()
-                raise common.Infra("coroutine suspended unexpectedly")
+                raise RuntimeError("UnexpectedSuspension: the call suspended although no user awaitable suspends")
             return r
         if k == "callMethod":
             r = getattr(inst[a["inst"]], "m%d" % a["m"] if prog["classes"][prog["instCls"][a["inst"]]]["meths"][a["m"]]["guarded"]
@@ -49,7 +49,7 @@ def run(case):
                 except StopIteration as e:
                     return e.value
                 r.close()
-                raise common.Infra("coroutine suspended unexpectedly")
+                raise RuntimeError("UnexpectedSuspension: the call suspended although no user awaitable suspends")
             return r
         if k == "construct":
             i = a["inst"]
